@@ -331,7 +331,8 @@ class PathEval:
                 if self.inliner:
                     r = self.inliner(c["key"], args)
                     if r is not None:
-                        tree = r
+                        # the summary reads memory as of this call: resolve remembered writes
+                        tree = subst(r, self.mem) if self.mem else r
             self.calls.append((b, tree))
             if any(a[0] == "&" for a in args) or any("&mut" in (operand_ty(self.f, a) or "") for a in t["args"]):
                 # memory reachable through a mutable reference may have changed
@@ -693,6 +694,32 @@ class Inliner:
         if s is None:
             return None
         return subst(s, {("param", i + 1): a for i, a in enumerate(args)})
+
+    def expand(self, tree, depth=0):
+        """replace every summarizable call in `tree` (innermost first) by its returned tree"""
+        if not isinstance(tree, tuple) or depth > 12:
+            return tree
+        k = tree[0]
+        if k == "call":
+            args = tuple(self.expand(a, depth + 1) for a in tree[2])
+            r = self(tree[1], list(args))
+            if r is not None:
+                return self.expand(r, depth + 1)
+            return ("call", tree[1], args, tree[3])
+        if k == "bin":
+            return canon_bin(tree[1], self.expand(tree[2], depth + 1), self.expand(tree[3], depth + 1), tree[4])
+        if k in ("un", "cast"):
+            return (k, tree[1], self.expand(tree[2], depth + 1), tree[3])
+        if k in ("*", "&", "discr", "ovf"):
+            inner = self.expand(tree[1], depth + 1)
+            if k == "*" and inner[0] == "&":
+                return inner[1]
+            if k == "&" and inner[0] == "*":
+                return inner[1]
+            return (k, inner)
+        if k in ("f", "dc", "cidx", "proj"):
+            return (k, self.expand(tree[1], depth + 1), tree[2])
+        return tree
 
 
 def compile_int_tree(tree, leaf_names):
